@@ -408,6 +408,9 @@ class _RebuildWith:
 
 def _apply_path(e: ast.AST, path: tuple) -> ast.AST:
     for p in path:
+        if isinstance(p, int) and isinstance(e, (ast.Tuple, ast.List)) and not any(isinstance(x, ast.Starred) for x in e.elts) and -len(e.elts) <= p < len(e.elts):
+            e = e.elts[p]            # a, b = x, y : a is x
+            continue
         if p == "*":
             e = ast.Call(func=ast.Name(id="__rest__", ctx=ast.Load()), args=[e], keywords=[])
         else:
